@@ -113,6 +113,24 @@ def same_instance_retry(case, k, reference):
     return None
 
 
+def no_transaction_case():
+    """an evolution whose ordinary statements (a table rebuild) are followed, in the same run, by a statement that has
+    to run outside a transaction (NoTransactionSQL, what the SQLite backend itself emits as VACUUM after fixing
+    references): the ordinary statements are still one transaction"""
+    def fld(name, t, **attrs):
+        return {'name': name, 'type': t, 'attrs': attrs, 'related': None}
+    def model(fields):
+        return {'name': 'Alpha', 'table': 'vapp_alpha', 'unique_together': [], 'index_together': [], 'indexes': [],
+                'constraints': [], 'fields': fields}
+    f0 = [fld('id', 'AutoField', primary_key=True), fld('a', 'IntegerField', null=True),
+          fld('gone', 'CharField', max_length=20, null=True)]
+    return {'spec0': {'apps': [{'id': 'vapp', 'models': [model(f0)]}]},
+            'spec1': {'apps': [{'id': 'vapp', 'models': [model(f0[:2])]}]},
+            'muts': [{'t': 'DeleteField', 'model': 'Alpha', 'field': 'gone'},
+                     {'t': 'SQLMutation', 'tag': 'reclaim', 'no_tx_sql': ['VACUUM;'], 'can_simulate': True}],
+            'rows': True}
+
+
 def purge_fault_cases(ctx):
     """an upgrade that also purges an app that is no longer installed (two task classes in one run), with a fault at
     every statement of the purge: whatever the first class had done, no evolution may be recorded, the stored
@@ -224,12 +242,15 @@ def run(ctx):
     commit_witness = None
     book_witness = None
     sub_witness = None
+    fixed = [no_transaction_case()]
     while done < ncases and tries < ncases * 6 and ctx.time_left() > 30:
         tries += 1
+        is_fixed = bool(fixed)
         # the first two cases always create models (a model with a many-to-many field: three creation statements;
         # then a single new model), the rest mostly do not
-        case = evocases.gen_upgrade(ctx.rng, new_model=(2 if done == 0 else 1 if done == 1 else
-                                                        ctx.rng.choice([0, 0, 0, 1, 2])))
+        case = fixed.pop(0) if is_fixed else \
+            evocases.gen_upgrade(ctx.rng, new_model=(2 if done == 0 else 1 if done == 1 else
+                                                     ctx.rng.choice([0, 0, 0, 1, 2])))
         if case is None:
             continue
         seed = ctx.seed * 1009 + tries
@@ -241,15 +262,20 @@ def run(ctx):
         ff = fault_free(case, seed)
         if ff is None or not ff['writes']:
             continue         # the evolution itself cannot be executed: C01's business
-        done += 1
+        done += 0 if is_fixed else 1
         n = len(ff['writes'])
-        ctx.count('cases')
+        ctx.count('cases:fixed' if is_fixed else 'cases')
         ctx.count('writes=%d' % min(n, 12))
         for k in range(n):
             if ctx.time_left() < 20:
                 break
             if is_foreign(ff['writes'][k]):
                 ctx.count('skipped:foreign_statement')
+                continue
+            if ff['writes'][k].strip().upper().startswith('VACUUM'):
+                # a statement that cannot run inside a transaction: what was executed before it had to be committed
+                # first, so a failure of this very statement is outside what the property can promise
+                ctx.count('skipped:non_transactional_statement')
                 continue
             rep, problems, final, retry_err = one_fault(case, k)
             rep.update({'spec0': case['spec0'], 'mutations': case['muts'], 'new_model': len(case['spec1']['apps'][0]['models']) >
